@@ -1,7 +1,7 @@
 //@ unit C16_cont
 //@ props C16 C01
 //@ module src/tables/glyf/outline.rs
-//@ strength bounded(one contour of 4 and of 5 points: all on/off-curve patterns with concrete pairwise-distinct coordinates; 3 points with fully symbolic i16 coordinates in the thorough tier)
+//@ strength bounded(one contour of 4 and of 5 points: all on/off-curve patterns with concrete pairwise-distinct coordinates, under the identity and under a scale-2-plus-offset component transform; 3 points with fully symbolic i16 coordinates in the thorough tier)
 //@ note exact f32 equality is sound here: every intermediate value is a dyadic rational below 2^17
 //@ unverified composite traversal over a real glyf table (visit_outline / visit_composite_glyph_outline need a GlyfTable with parsed records)
 use crate::tables::glyf::{BoundingBox, Point, SimpleGlyphFlag};
@@ -99,8 +99,22 @@ fn contour_case<const N: usize>(symbolic_coordinates: bool) {
         phantom_points: None,
     };
     let mut rec = Rec { cmds: [Cmd::None; 12], n: 0 };
-    GlyfTable::visit_simple_glyph_outline(&mut rec, Transform2F { vector: Vector2F::zero(), matrix: Matrix2x2F::from_scale(1.0) }, &glyph).unwrap();
-    let want = spec_path::<N>(&on, &x, &y);
+    // the component transform (composite glyphs): every delivered point is  scale * p + offset ; scale 2 and offset (5, -3) keep f32 exact
+    let scaled: bool = kani::any();
+    let (k, dx, dy) = if scaled { (2.0f32, 5.0f32, -3.0f32) } else { (1.0f32, 0.0f32, 0.0f32) };
+    GlyfTable::visit_simple_glyph_outline(&mut rec, Transform2F { vector: Vector2F::new(dx, dy), matrix: Matrix2x2F::from_scale(k) }, &glyph).unwrap();
+    let mut want = spec_path::<N>(&on, &x, &y);
+    let mut t = 0;
+    while t < want.n {
+        want.cmds[t] = match want.cmds[t] {
+            Cmd::M(a, b) => Cmd::M(k * a + dx, k * b + dy),
+            Cmd::L(a, b) => Cmd::L(k * a + dx, k * b + dy),
+            Cmd::Q(a, b, c, d) => Cmd::Q(k * a + dx, k * b + dy, k * c + dx, k * d + dy),
+            other => other,
+        };
+        t += 1;
+    }
+    kani::cover!(scaled, "a non-identity component transform is explored");
     // vacuity guards: the patterns that need implied mid-points (also across the closing edge) are really explored
     kani::cover!(!on[0] && !on[1], "two consecutive off-curve points");
     kani::cover!(!on[0] && !on[N - 1], "off-curve first and last point");
